@@ -108,6 +108,31 @@ CHECKS = {
              'nearest declared encoding (writer) and that the reader returns the content ReadFile specifies '
              '(reader, also on independently rendered foreign files), the two sides judged separately.',
         ref='6 C04'),
+    'C16': dict(
+        technique='TLA+ spec of line splitting (Bytes.tla SplitKeep/SplitDrop; MC_Split identities on complete '
+                  'spaces) + exhaustive enumeration through split_lines + TLC trace validation (Trace_Split)',
+        text='The four identities of C16 are invariants of SplitKeep/SplitDrop over all byte strings to the bound '
+             'for each of the ten newlines (TLC). The same spaces and random strings up to 2 KB go through the '
+             'real split_lines in both modes; TLC requires both results, line by line, to equal SplitKeep/SplitDrop.',
+        ref='6 C16'),
+    'C14': dict(
+        technique='TLA+ hunk machine and declarative geometry (Hunks.tla; MC_Hunks) + TLC-enumerated live-prefix '
+                  'tree of line sequences replayed into get_unified_diff_hunks + TLC trace validation (Trace_Hunks)',
+        text='MC_Hunks: the per-line machine returns exactly the geometry computed declaratively from every '
+             'description of one hunk (body <= 5) and every pair of short hunks, with/without garbage tolerance; '
+             'truncation, foreign lines and interrupting headers give a hunk error naming the line; total over all '
+             'kind sequences. TLC enumerates the machine\'s live prefixes over 18 concrete line forms; each, plus '
+             'generated hunks, their damages and the empty list, is run through the real parser and judged by TLC, '
+             'the specification classifying the raw bytes itself.',
+        ref='6 C14'),
+    'C13': dict(
+        technique='TLA+ spec of generate_stats (Stats.tla over Hunks/Content/Codec; MC_Stats algebraic laws) + TLC '
+                  'trace validation of DiffX.generate_stats on generated trees (Trace_Stats)',
+        text='MC_Stats: Exact, Additive, Idempotent, NonDestructive hold for GenAll on all trees of <= 2x2 over a '
+             'pool of file kinds and pre-existing stats. For random real trees TLC recomputes every section\'s '
+             'metadata from the diff bytes (newline detection, decoding, hunk parsing all in TLA+) and compares with '
+             'what generate_stats left, after one and after two calls.',
+        ref='6 C13'),
 }
 
 PENDING = {}
